@@ -15,6 +15,9 @@
 //! return value 1/0 vs the Rust method's bool, the whole parameter block afterwards (`{:?}` of the pub
 //! field) and the rest of the history are compared (`ffi:set-parameter:*`); `bvh ffi c20` runs only
 //! SetParameter-heavy histories (second stage of C20).
+//! One SetCustomDictionary call (lengths 0 — also with a NULL pointer —, 1, 2, small, above the window) may
+//! follow the initial parameters, and SetParameter calls after it must be refused as after any first use
+//! (`ffi:set-custom-dictionary:*`); finished streams are decoded with the same dictionary.
 //! An output-buffer grid (`grid_case`) drives the multi / work-pool / one-shot entry points with
 //! buffers {0, 1, tiny, exact-1, exact, bound-1, bound} x desired threads {0,1,2,4,16,17,32} x
 //! {CompressMulti, work pool NULL, work pool real}: success implies size <= buffer, both decoders
@@ -77,7 +80,9 @@ pub enum Call {
     SetParam(u32, u32),
 }
 #[derive(Clone, Debug)]
-pub struct History { custom_alloc: bool, params: Vec<(u32, u32)>, dict: Vec<u8>, calls: Vec<Call> }
+/// `dict`: Some((bytes, null pointer for an empty dictionary)) = one SetCustomDictionary call after `params`;
+/// `post_params`: SetParameter calls made after it (the dictionary call is a first use: they must be refused)
+pub struct History { custom_alloc: bool, params: Vec<(u32, u32)>, dict: Option<(Vec<u8>, bool)>, post_params: Vec<(u32, u32)>, calls: Vec<Call> }
 
 /// every named parameter of `BrotliEncoderParameter` by its discriminant (+ two UNUSED ones)
 const PARAM_IDS: [u32; 34] = [0, 1, 2, 3, 4, 5, 6, 150, 151, 152, 153, 154, 155, 156, 157, 158, 159, 160, 161, 162, 164, 165, 166, 167, 168, 169, 170, 171, 7, 18, 100, 200, 254, 255];
@@ -102,7 +107,8 @@ fn hist_json(h: &History) -> String {
     let calls: Vec<String> = h.calls.iter().map(|c| match c {
         Call::Stream { op, input, cap, streaming, tot, null_in, null_out } => format!("s{}:{}:{}:{}{}{}{}", op, hex(input), cap, *streaming as u8, *tot as u8, *null_in as u8, *null_out as u8),
         Call::Take(n) => format!("t{}", n), Call::HasMore => "m".into(), Call::IsFinished => "f".into(), Call::SetParam(k, v) => format!("p{}={}", k, v) }).collect();
-    format!("{{\"custom_alloc\":{},\"params\":{},\"dict\":{},\"calls\":{}}}", h.custom_alloc, jstr(&h.params.iter().map(|(k, v)| format!("{}={}", k, v)).collect::<Vec<_>>().join(",")), jstr(&hex(&h.dict)), jstr(&calls.join(" ")))
+    let ps = |v: &Vec<(u32, u32)>| jstr(&v.iter().map(|(k, v)| format!("{}={}", k, v)).collect::<Vec<_>>().join(","));
+    format!("{{\"custom_alloc\":{},\"params\":{},\"dict\":{},\"post_params\":{},\"calls\":{}}}", h.custom_alloc, ps(&h.params), match &h.dict { None => "null".to_string(), Some((d, nul)) => format!("{{\"bytes\":{},\"null_ptr\":{}}}", jstr(&hex(d)), nul) }, ps(&h.post_params), jstr(&calls.join(" ")))
 }
 
 const BASE_IN: usize = 1_000_000; // symbolic addresses used in the correspondence lines
@@ -137,10 +143,19 @@ pub fn run_history(h: &History, rep: &mut Report, extra: &mut Vec<(String, Strin
         };
         let mut plines: Vec<(String, String)> = vec![];
         for (k, v) in &h.params { set_param(st, &mut twin, *k, *v, "before the first stream call", rep, &mut plines); }
-        if !h.dict.is_empty() {
-            c::BrotliEncoderSetCustomDictionary(st, h.dict.len(), h.dict.as_ptr());
-            twin.set_custom_dictionary(h.dict.len(), &h.dict);
-            rep.count("with_custom_dictionary");
+        let empty_dict: Vec<u8> = vec![];
+        let dict_bytes: &Vec<u8> = h.dict.as_ref().map(|d| &d.0).unwrap_or(&empty_dict);
+        if let Some((d, null_ptr)) = &h.dict {
+            // the Rust call is a "first use" even for an empty dictionary: it initialises the encoder
+            c::BrotliEncoderSetCustomDictionary(st, d.len(), if d.is_empty() && *null_ptr { core::ptr::null() } else { d.as_ptr() });
+            twin.set_custom_dictionary(d.len(), d);
+            rep.count(&format!("set_custom_dictionary.len_{}", match d.len() { 0 => if *null_ptr { "0_null".to_string() } else { "0".to_string() }, 1 => "1".into(), 2 => "2".into(), n if n <= 300 => "small".into(), _ => "above_window".into() }));
+            nontrivial = true;
+            let (ic, ir) = ((*st).compressor.is_initialized_, twin.is_initialized_);
+            if ic != ir { rep.violation("ffi:set-custom-dictionary:first-use-differs", &format!("after SetCustomDictionary({} bytes) the C instance is{} initialised, the Rust instance is{}", d.len(), if ic { "" } else { " not" }, if ir { "" } else { " not" }), case.clone()); }
+            let (pc, pr) = (format!("{:?}", (*st).compressor.params), format!("{:?}", twin.params));
+            if pc != pr { rep.violation("ffi:set-custom-dictionary:params-differ", &format!("after SetCustomDictionary({} bytes) the C instance's parameters differ from the Rust instance's", d.len()), case.clone()); }
+            for (k, v) in &h.post_params { set_param(st, &mut twin, *k, *v, "after SetCustomDictionary", rep, &mut plines); }
         }
         let mut delivered: usize = 0; // pushed + taken, C side
         let mut tot_cell: usize = 0xDEAD;
@@ -221,8 +236,10 @@ pub fn run_history(h: &History, rep: &mut Report, extra: &mut Vec<(String, Strin
         let fin = c::BrotliEncoderIsFinished(st) != 0;
         if fin {
             // metadata blocks are skipped by a decoder: the stream must decode to exactly what was consumed
-            match crate::dec::decode_dict(&all_c, &h.dict, 1 << 24) {
-                crate::dec::DResult::Ok(v) if v == fed => { rep.count("finished_and_decoded"); if had_meta { rep.count("finished_and_decoded.with_metadata"); } }
+            match crate::dec::decode_dict(&all_c, dict_bytes, 1 << 24) {
+                crate::dec::DResult::Ok(v) if v == fed => { rep.count("finished_and_decoded"); if had_meta { rep.count("finished_and_decoded.with_metadata"); } if !dict_bytes.is_empty() { rep.count("finished_and_decoded.with_dictionary"); } }
+                // a dictionary longer than the window is cut by the encoder; what the decoder then needs is C10's subject
+                _ if dict_bytes.len() > 1000 => rep.count("finished_oversize_dictionary_not_decoded_here"),
                 _ => rep.violation("ffi:finished-stream-does-not-decode", "is_finished, but the delivered bytes do not decode to the bytes the stream calls consumed", case.clone()),
             }
         }
@@ -293,15 +310,21 @@ fn gen_history(rng: &mut Rng, setparam_heavy: bool) -> History {
         calls.push(mk(rng, 2, vec![], 70000));
     }
     calls.push(Call::IsFinished); calls.push(Call::HasMore);
-    let dict = if rng.chance(1, 8) { let dl = rng.range(1, 300) as usize; gen_data(rng, dl) } else { vec![] };
-    History { custom_alloc: rng.chance(1, 2), params, dict, calls }
+    let dict = if rng.chance(1, if setparam_heavy { 3 } else { 5 }) {
+        let dl = match rng.below(8) { 0 | 1 => 0, 2 => 1, 3 => 2, 4 | 5 => rng.range(3, 300) as usize, 6 => rng.range(1025, 3000) as usize, _ => (1usize << lgwin) + rng.range(0, 40) as usize };
+        let dl = if q >= 10 { dl.min(300) } else { dl };
+        Some((gen_data(rng, dl), rng.chance(1, 2)))
+    } else { None };
+    let mut post_params = vec![];
+    if dict.is_some() { for _ in 0..rng.below(3) { post_params.push((*rng.pick(&[1u32, 2, 0, 5, 167, 168, 169, 4]), *rng.pick(&[0u32, 1, 5, 9, 18]))); } }
+    History { custom_alloc: rng.chance(1, 2), params, dict, post_params, calls }
 }
 /// metadata rounds re-offer the whole block in the generator; trim each round to what the
 /// previous one left unconsumed (needs the real run) — done lazily here by simulating on a twin
 fn fix_metadata(h: &mut History) {
     let mut twin = BrotliEncoderStateStruct::new(StandardAlloc::default());
     for (k, v) in &h.params { twin.set_parameter(param_of(*k), *v); }
-    if !h.dict.is_empty() { twin.set_custom_dictionary(h.dict.len(), &h.dict); }
+    if let Some((d, _)) = &h.dict { twin.set_custom_dictionary(d.len(), d); for (k, v) in &h.post_params { twin.set_parameter(param_of(*k), *v); } }
     let mut left: Option<Vec<u8>> = None;
     let mut out: Vec<Call> = vec![];
     for c in h.calls.iter() {
@@ -383,7 +406,9 @@ fn multi_case(rng: &mut Rng, rep: &mut Report, corr: &mut Vec<(String, String)>,
             if ret != 0 || sz != sentinel { rep.violation("ffi:multi:zero-threads-not-rejected", &format!("desired_num_threads = 0 returned {} (encoded_size {})", ret, sz), case.clone()); }
             rep.nontrivial += 1; return;
         }
-        if ret == 0 { rep.violation("ffi:multi:failed", "returned 0 with an output buffer of the advertised maximum size", case.clone()); return; }
+        // (encode.h: the advertised bound is only valid for quality >= 2 — at quality 0/1 incompressible
+        // input may legitimately not fit, and the call then has to fail by return value)
+        if ret == 0 { if q >= 2 { rep.violation("ffi:multi:failed", "returned 0 with an output buffer of the advertised maximum size", case.clone()); } else { rep.count("multi.q01_did_not_fit_bound"); } return; }
         match crate::dec::decode(&out[..sz.min(cap)], n + 65536) { crate::dec::DResult::Ok(v) if v == data => rep.count("multi.decoded"), _ => { rep.violation("ffi:multi:success-but-undecodable", "returned 1 but the output does not decode to the input", case.clone()); return; } }
         // thread-count clamp: same bytes as the Rust API with min(desired, 16) jobs
         if threads >= 2 {
